@@ -107,6 +107,24 @@ def components(rng, quick):
         return f
     C.append(Comp("SyndromeLookupDecoder/Hamming(7,4)", "SyndromeLookupDecoder", lambda: D.SyndromeLookupDecoder(E.HammingCodeEncoder(3)), recv_pool(ham), dense=ball(ham, 2)))
     C.append(Comp("BruteForceMLDecoder/Hamming(7,4)", "BruteForceMLDecoder", lambda: D.BruteForceMLDecoder(E.HammingCodeEncoder(3)), recv_pool(ham), dense=ball(ham, 2)))
+    # long words that agree in their first positions and differ only in the tail, on both sides of a decision boundary (a decoder that keys or
+    # packs a word into a limited-precision number sees them as equal)
+
+    def tail_twins(n, head_weight, tail=7):
+        def f():
+            out = []
+            for _ in range(2):
+                head = [1.0] * head_weight + [0.0] * (n - tail - head_weight)
+                rng.shuffle(head)
+                for v in rng.sample(range(1 << tail), 40):
+                    out.append(torch.tensor(head + [float((v >> j) & 1) for j in range(tail)]))
+                out.append(torch.tensor(head + [0.0] * tail))
+            return out
+        return f
+    rep31 = E.RepetitionCodeEncoder(31)
+    C.append(Comp("BruteForceMLDecoder/Repetition(31)", "BruteForceMLDecoder", lambda: D.BruteForceMLDecoder(E.RepetitionCodeEncoder(31)), recv_pool(rep31), dense=tail_twins(31, 15)))
+    rm15 = E.ReedMullerCodeEncoder(1, 5)
+    C.append(Comp("BruteForceMLDecoder/RM(1,5)", "BruteForceMLDecoder", lambda: D.BruteForceMLDecoder(E.ReedMullerCodeEncoder(1, 5)), recv_pool(rm15), dense=tail_twins(32, 12)))
     C.append(Comp("BerlekampMasseyDecoder/BCH(15,7)", "BerlekampMasseyDecoder", lambda: D.BerlekampMasseyDecoder(E.BCHCodeEncoder(4, 5)), recv_pool(bch), dense=ball(bch, 2)))
     C.append(Comp("SyndromeLookupDecoder/BCH(15,7)", "SyndromeLookupDecoder", lambda: D.SyndromeLookupDecoder(E.BCHCodeEncoder(4, 5)), recv_pool(bch), dense=ball(bch, 2)))
     C.append(Comp("ReedMullerDecoder(hard)/RM(1,3)", "ReedMullerDecoder", lambda: D.ReedMullerDecoder(E.ReedMullerCodeEncoder(1, 3)), recv_pool(E.ReedMullerCodeEncoder(1, 3))))
